@@ -8,6 +8,7 @@ import SltVerif.Include
 import SltVerif.Update
 import SltVerif.Subst
 import SltVerif.Cli
+import SltVerif.CliTrace
 import SltVerif.Extern
 import Driver.Codec
 import Driver.Db
@@ -539,6 +540,51 @@ def opCliMon : Rd String := do
     | some v => pure s!"reject {showReportViolation v}"
     | none => pure "accept"
 
+/-- a label of the parallel-driver transition system (witness of a trace-inclusion case) -/
+def readDLabel : Rd DLabel := do
+  match (← tok) with
+  | "create" => pure .create
+  | "beginRun" => pure .beginRun
+  | "start" => pure .start
+  | "open" => .openSession <$> nat
+  | "sql" => do let i ← nat; let k ← nat; let t ← str; pure (.sql i k t)
+  | "finish" => do
+    let i ← nat
+    let r ← readTag
+    let refused ← bool
+    match r with
+    | some r => pure (.finish i r refused)
+    | none => throw "bad result in finish label"
+  | "close" => do let i ← nat; let k ← nat; pure (.closeSession i k)
+  | "signal" => pure .signal
+  | "beginDrop" => pure .beginDrop
+  | "drop" => pure .drop
+  | "done" => pure .done
+  | x => throw s!"bad label {x}"
+
+/-- trace inclusion: replay a witness label sequence through the driver model and compare its log
+    and results with the observed engine log and the printed status tags -/
+def opCliTrace : Rd String := do
+  let jobs ← nat
+  let keep ← bool
+  let failFast ← bool
+  let files ← listOf (do
+    let path ← str
+    let db ← str
+    pure ({ path, db } : DFile))
+  let labels ← listOf readDLabel
+  let evs ← listOf readCEv
+  let tags ← listOf readTag
+  let cfg : DCfg := { jobs, keep, failFast, files }
+  if tags.any (·.isNone) then pure "reject no-status-line"
+  else
+    match traceCheck cfg labels evs (tags.filterMap id) with
+    | .ok => pure "accept"
+    | .stuck k => pure s!"reject label-not-enabled {k}"
+    | .notFinished => pure "reject run-not-finished"
+    | .logDiffers k => pure s!"reject log-differs-at {k}"
+    | .resultDiffers i => pure s!"reject result-differs-for-file {i}"
+
 /-- replay an event log of the library's `run_parallel` through the monitor (no report, keep off) -/
 def opLibMon : Rd String := do
   let jobs ← nat
@@ -643,6 +689,7 @@ def dispatchOp (line : String) : String :=
       | "testdir" => (do let _ ← nat; pure "distinct=1 same=1 exist=1 gone=1 par_ok=1 par_db=1 par_same=1 par_distinct=1 par_gone=1 parent_alive=1" : Rd String).run rest
       | "sleepprobe" => (do let _ ← nat; let _ ← nat; pure "ok" : Rd String).run rest
       | "climon" => opCliMon.run rest
+      | "clitrace" => opCliTrace.run rest
       | "libmon" => opLibMon.run rest
       | "libname" => (do let p ← str; let k ← nat; pure ("name " ++ hx (libDbName p k)) : Rd String).run rest
       | "serial" => opSerial.run rest
